@@ -16,7 +16,7 @@ Definition conj (z : cplx) : cplx := mkC (re z) (- im z).
 Definition cneg (z : cplx) : cplx := mkC (- re z) (- im z).
 Definition cadd (z w : cplx) : cplx := mkC (re z + re w) (im z + im w).
 Definition csub (z w : cplx) : cplx := mkC (re z - re w) (im z - im w).
-(* mul: real = a*c - b*d ; imag = a*d + b*c   (mod.rs:68-76) *)
+(* mul: real = a*c - b*d ; imag = a*d + b*c   (mod.rs:74-84) *)
 Definition cmul (z w : cplx) : cplx :=
   mkC (re z * re w - im z * im w) (re z * im w + im z * re w).
 (* div: den = c*c + d*d ; real = (a*c + b*d)/den ; imag = (b*c - a*d)/den   (mod.rs:86-97) *)
